@@ -149,4 +149,6 @@ def decode_by_contract(bits, repair_if_necessary=True):
     for cw, msg in reversed(vc.ghost.get("bptc", [])):
         if _same_bits(bits.tolist(), cw.tolist()):
             return msg.copy()
-    return vc.havoc_bits(96)
+    out = vc.havoc_bits(96)
+    vc.ghost.setdefault("bptc", []).append((bits.copy(), out.copy()))  # a function: the same 196 bits decode to the same 96 again
+    return out
